@@ -73,9 +73,9 @@ func (r *v12Real) settle() {
 func (r *v12Real) state() v12State {
 	g := v12Project(r.srv.metadata.GetConsumerGroup(v12GroupID))
 	st := v12State{Gs: map[string]v12Group{"A": g, "B": g},
-		Parts: map[string]int32{}, Idx: r.idx}
+		Parts: map[string]int32{}, Paused: map[string][]int32{}, Idx: r.idx}
 	for _, s := range r.streams {
-		st.Parts[s] = r.srv.metadata.countStreamPartitions(s)
+		st.Parts[s], st.Paused[s] = v12MetaStream(r.srv.metadata, s)
 	}
 	return st
 }
